@@ -5,7 +5,7 @@ meta.json (property, what it needs to manifest, what was run, which checks caugh
 import json, os, shutil, sys
 
 SRC = '/tmp/seedout'
-ROUNDS = [('/tmp/seedout', 0), ('/tmp/seedout2', 2)]
+ROUNDS = [('/tmp/seedout', 0), ('/tmp/seedout2', 2), ('/tmp/seedout3', 4)]
 DST = os.path.join(os.path.dirname(os.path.dirname(os.path.abspath(__file__))), 'seeded')
 
 NEEDS = {
@@ -84,6 +84,44 @@ NEEDS = {
     'C18-3': 'null guard moved from print() into the default printer<T>: user-provided printer<T> for a null-comparable T is handed null values',
     'C18-4': 'streamable collections (std::string, string_view) streamed without stream_sentry: string printed into a stream with non-zero width',
     'C20-3': 'CO_RETURN / CO_THROW functor moved into the first coroutine frame: >=2 calls on one expectation whose expression uses a captured class-type local',
+    'C01-5': 'cost() returns 0 for every entry once the sequence object is gone: a passed-over step is called after its sequence object was destroyed',
+    'C01-6': 'retire_predecessors guarded by is_satisfied() (D1 re-introduced at another site)',
+    'C02-5': 'requirement retires itself before its predecessors: optional step, REQUIRE_DESTRUCTION, later step L in one sequence; object dies; a call matching L and an older unsequenced expectation',
+    'C02-6': 'inverted ternary in cost() for a destroyed sequence: passed entries become callable, pending ones blocked',
+    'C03-5': 'OK report sent before the call is counted: only visible to an OK reporter that re-enters the same mock function',
+    'C03-6': 'one-argument RT_TIMES(n) has no upper bound',
+    'C04-5': 'already-reported flag set after the report is sent: only visible to a reporter that destroys the mock from inside the callback',
+    'C04-6': '~call_matcher samples is_unfulfilled() before taking the lock: mock destroyed by one thread while another releases an expectation on it (double report)',
+    'C05-5': 'validate() stops after the first violated sequence: REQUIRE_DESTRUCTION IN_SEQUENCE(s1,s2) dying while blocked in both (one report instead of two)',
+    'C05-6': 'call counted before the eligibility check (as C01-1 / C03-1, other site)',
+    'C06-5': 'retire_predecessors guarded by cost != ~0U: out-of-turn monitored destruction leaves unmet earlier steps registered',
+    'C06-6': 'mock_destroyed() retires the expectation from its sequences (the reading of C04/C06 in which mock destruction ends the lifetime)',
+    'C07-5': 'forbidden hit reported non-fatal when an exception is being handled: forbidden call made from inside a catch block',
+    'C07-6': 'NAMED_FORBID_CALL_V with clauses expands like NAMED_ALLOW_CALL_V: the _V spelling with a WITH clause on a void function',
+    'C08-5': 'a side effect already running is not started again: recursion into the same expectation from its own side effect',
+    'C08-6': 'remaining side effects dropped once the expectation is unlinked: a side effect that destroys the mock the call was made on',
+    'C09-5': 'decay_return_type copies const lvalues: RETURN(_n) on a function returning const T&',
+    'C09-6': 'tuple printed by value: tuple parameter while a tracer is alive (extra copy before the clauses run)',
+    'C10-5': '*m moves from a named matcher: named matcher with a class-type operand composed with * and then used again',
+    'C10-6': 'integral operand narrowed to the parameter type: unsigned char / short parameter compared with an int operand outside its range',
+    'C11-5': 'range_ends_with (container form) uses std::search: listed tail also occurs earlier in the range',
+    'C11-6': 'range_starts_with (container form) accepts an empty range for a non-empty list',
+    'C12-5': '~expectations peeks at saturated.empty() without the lock: mock destroyed while another thread releases its saturated expectation (narrow window)',
+    'C12-6': 'trompeloeil_expect_death() loses its lock: one thread releases a requirement while another places a second one on the same object (two requirements on one object: known-finding territory D10)',
+    'C13-5': 'move assignment to a watched object drops its requirement (defaulted special members + null_on_move move assignment)',
+    'C13-6': '~lifetime_monitor reads died before the lock (as C12-4)',
+    'C14-5': 'null_on_move copy constructor copies the monitor pointer (as C13-1)',
+    'C14-6': 'move constructor initialises saturated from r.active: saturated expectations stay behind after a move',
+    'C15-5': 'severity overwritten with non-fatal after the first sequence: IN_SEQUENCE(s1,s2) call violating only the second listed sequence',
+    'C15-6': 'print_mismatch stops after the first rejecting parameter: function with >=2 parameters rejected on >=2 of them',
+    'C16-5': 'OK report sent after the side effects: accepted call whose side effect throws gets no OK report',
+    'C16-6': 'OK reporter object is thread_local: set_reporter on one thread, accepted call on another',
+    'C17-5': 'parameters formatted lazily after the actions ran: side effect writes through an in/out reference parameter',
+    'C17-6': 'stream_tracer snapshots the stream buffer at construction: stream redirected with rdbuf() afterwards',
+    'C18-5': 'expected values in a no-match listing bypass the null guard: expectation with a null pointer as expected value',
+    'C18-6': 'stream_sentry merges flags back instead of replacing them: user operator<< that leaves showpos / hex / boolalpha set',
+    'C20-5': 'CO_THROW starts a fresh yield list: CO_YIELD clauses before CO_THROW are dropped',
+    'C20-6': 'CO_THROW captures by reference: local changed between creation and evaluation',
     'C20-4': 'all CO_YIELD expressions evaluated up-front: a throwing non-first CO_YIELD, or LR_CO_YIELD reading state changed between resumes',
 }
 
@@ -119,7 +157,7 @@ def main():
             old_meta = {}
             if os.path.exists(os.path.join(out, 'meta.json')):
                 old_meta = json.load(open(os.path.join(out, 'meta.json')))
-            meta = dict(id=sid, property=prop, round=1 if off == 0 else 2,
+            meta = dict(id=sid, property=prop, round=1 + off // 2,
                         author='independent sub-agent given only the property record and a scratch worktree' + ('' if off == 0 else ' (second round: also told, in one line each, which two changes had already been made for the property)'),
                         needs_to_manifest=NEEDS.get(sid, ''),
                         confirmed=dict(applies=r.get('applies'), pinned_suite_passes_with_change=r.get('suite_passes_with_change'),
